@@ -2,6 +2,7 @@ package vfs
 
 import (
 	"fmt"
+	"regexp"
 	"strings"
 
 	"verif/mc"
@@ -237,6 +238,16 @@ func (l *opList) listing(d int) {
 	}
 }
 
+// caseDependentHiddenMatcher: patterns as used in production configurations
+// (macOS resource forks / Finder files, NFS silly renames). Its answer for a
+// name and for the lower-cased name differ for ".DS_Store" (hidden; ".ds_store"
+// is not) and for ".NFS00A1" (visible; ".nfs00a1" is hidden).
+var caseDependentHiddenPattern = regexp.MustCompile(`^\._|^\.DS_Store$|^\.nfs[0-9a-f]+$`)
+
+func caseDependentHiddenMatcher(name string) bool {
+	return caseDependentHiddenPattern.MatchString(name)
+}
+
 // ---------------------------------------------------------------------------
 // Canned trees.
 
@@ -439,6 +450,50 @@ var seqCfgs = []*seqCfg{
 		},
 	},
 	{
+		// Case-insensitive names TOGETHER with hidden-file patterns whose
+		// answer differs between a name and its lower-cased (normalised)
+		// form, in both directions: ".DS_Store" is hidden but ".ds_store"
+		// is not; ".NFS00A1" is not hidden but ".nfs00a1" would be. The
+		// matcher sees the name an entry was created under, at the
+		// listing sites as well as in the emptiness rule of rmdir /
+		// Remove / directory-over-directory rename / markDeleted.
+		name: "seq-casefold-hidden", fold: true, matcher: caseDependentHiddenMatcher, nslots: 3, slotX: -1,
+		setup: func(c *mc.SeqCtx, s *st) {
+			s.do(c, "setup", func() { s.bCreateAndEnter(R, "d") })
+			s.slots[D] = s.m.find(s.slots[R], "d").node
+			s.do(c, "setup", func() { s.bCreateAndEnter(D, "e") })
+			s.slots[E] = s.m.find(s.slots[D], "e").node
+			s.do(c, "setup", func() { s.vOpenChild(E, ".DS_Store", true, false) })
+		},
+		depth: map[string]int{"quick": 4, "thorough": 6},
+		ops: func(cfg *seqCfg) []mc.SeqOp {
+			var l opList
+			l.openCreate(cat(at(E, ".DS_Store", ".ds_store", ".NFS00A1", "a"), at(D, ".NFS00A1", ".ds_store"))...)
+			l.mkdir(at(R, "x")...)
+			// The emptiness rules.
+			l.remove(rmDirOnly, cat(at(R, "d"), at(D, "e", "E"))...)
+			l.bRemove(cat(at(R, "d"), at(D, "e"))...)
+			l.rename(at(R, "x"), cat(at(R, "d", "D"), at(D, "e")))
+			l.rename(at(D, "e"), at(R, "x"))
+			l.removeAllChildren(true, D)
+			// Moving files between hidden / visible spellings.
+			l.remove(rmLeafOnly, at(E, ".DS_Store", ".ds_store", ".NFS00A1", "a")...)
+			l.rename(at(E, ".DS_Store"), cat(at(E, ".ds_store", ".NFS00A1", "a"), at(D, ".DS_Store")))
+			l.rename(at(E, ".NFS00A1"), cat(at(E, ".nfs00a1", ".DS_Store"), at(D, ".nfs00a1")))
+			l.rename(at(E, "a"), at(E, ".DS_Store", ".nfs00a1"))
+			l.link(at(E, ".DS_STORE", ".nfs00a1")...)
+			// Listing sites.
+			l.lookup(at(E, ".ds_store", ".nfs00a1")...)
+			l.lookupChild(at(E, ".DS_Store")...)
+			l.readDirFull(D, E)
+			l.bReadDir(E)
+			l.lookupAllChildren(E)
+			l.filterChildren(filterObserve, D)
+			l.filterChildren(filterRemoveAll, D)
+			return l.ops
+		},
+	},
+	{
 		// Lazily initialised directories: /d is materialised on first
 		// access to {a (file), e/ (again lazy)}; its fetcher fails once.
 		name: "seq-lazy", nslots: 3, slotX: -1,
@@ -547,13 +602,14 @@ var seqCfgs = []*seqCfg{
 // same alphabets, but only the lock probe after every call matters there (no
 // final read oracle), so they are explored less deeply in the quick tier.
 var leakDepth = map[string]map[string]int{
-	"seq-rename":   {"quick": 3, "thorough": 5},
-	"seq-bulk":     {"quick": 3, "thorough": 5},
-	"seq-readdir":  {"quick": 3, "thorough": 5},
-	"seq-casefold": {"quick": 3, "thorough": 5},
-	"seq-hidden":   {"quick": 3, "thorough": 5},
-	"seq-lazy":     {"quick": 4, "thorough": 6},
-	"seq-errors":   {"quick": 2, "thorough": 4},
+	"seq-rename":          {"quick": 3, "thorough": 5},
+	"seq-bulk":            {"quick": 3, "thorough": 5},
+	"seq-readdir":         {"quick": 3, "thorough": 5},
+	"seq-casefold":        {"quick": 3, "thorough": 5},
+	"seq-hidden":          {"quick": 3, "thorough": 5},
+	"seq-casefold-hidden": {"quick": 3, "thorough": 4},
+	"seq-lazy":            {"quick": 4, "thorough": 6},
+	"seq-errors":          {"quick": 2, "thorough": 4},
 }
 
 func buildSeqs() []*mc.Seq {
